@@ -21,6 +21,8 @@ type Ctx struct {
 	R *check.Result
 
 	rootedSet map[*ssa.Function]bool
+	hold      *holderTypes
+	wparams   map[*ssa.Function]map[int]bool
 }
 
 // Rooted reports whether f is reachable from any ABCI root (handlers, ante, blockers,
